@@ -492,6 +492,31 @@ class Body:
             out.append(None)
         return out
 
+    def terms_at(self, l, at):
+        """[(term, def)] for every definition of local l that may reach `at` (def None = entry value)."""
+        out = []
+        for d in self.reaching_defs(l, at):
+            if d is None:
+                out.append((('param', l, self.name_of(l)) if 1 <= l <= self.arg_count else ('undef', self.path, l), None))
+            elif d[4]:
+                out.append((self._def_term(d), d))
+            else:
+                out.append((('partial', self.path, l, d[1], d[2]), d))
+        return out
+
+    def return_values(self):
+        """[(term, def, return_block)] over all return blocks and reaching definitions of _0."""
+        out = []
+        seen = set()
+        for rb in self.return_blocks():
+            for t, d in self.terms_at(0, (rb, None)):
+                k = (d[1], d[2]) if d else None
+                if k in seen:
+                    continue
+                seen.add(k)
+                out.append((t, d, rb))
+        return out
+
     def place_term(self, p, at=None):
         t = self.term_local(p['local'], at)
         for e in p['proj']:
